@@ -293,6 +293,18 @@ func (fv *FnVerifier) frameTargetOf(ce *CEnv, e Expr) []frameTarget {
 		if id == nil || len(x.Args) != 1 {
 			break
 		}
+		if id.Name == "allof" {
+			// allof(x.f): field f of EVERY object of x's struct type may change (only the type of x matters)
+			sel, ok := x.Args[0].(*ESel)
+			if !ok {
+				unsupported("assigns allof(): field selector expected")
+			}
+			ts := fv.frameTargetOf(ce, sel)
+			for i := range ts {
+				ts[i].whole = true
+			}
+			return ts
+		}
 		v := ce.mustEval(x.Args[0])
 		switch id.Name {
 		case "elems":
